@@ -20,6 +20,9 @@ pub enum Op {
     Tick(u64),
     /// read the five shapes twice in two orders derived from the argument
     Read(u8),
+    /// closed loop: set the frequency so that the next tick lands exactly on counter value `target` (computed from the
+    /// counter read back at that moment; exact when the sample rate is a power of two), then tick once
+    LandOn(u32),
 }
 
 #[derive(Clone, Debug)]
@@ -45,6 +48,7 @@ impl History {
                     format!("tick {}", n)
                 }
                 Op::Read(o) => format!("read {}", o),
+                Op::LandOn(k) => format!("land_on {}", k),
             };
             t.ops.push(s);
         }
@@ -63,6 +67,7 @@ impl History {
                 "set_frequency" => Op::SetFreq(pf(arg.ok_or("arg")?)?),
                 "tick" => Op::Tick(pu(arg.ok_or("arg")?)?),
                 "read" => Op::Read(pu(arg.ok_or("arg")?)? as u8),
+                "land_on" => Op::LandOn(pu(arg.ok_or("arg")?)? as u32),
                 _ => return Err(format!("unknown lfo op '{}'", l)),
             };
             ops.push(op);
@@ -142,7 +147,9 @@ pub struct Exec<'a> {
 }
 
 fn wanted(want: &str, prop: &str) -> bool {
-    want == prop || want == "ALL" || (want == "C17" && prop == "C17")
+    // "the up-saw is exactly 2*phase-1" (C10) refers to the phase that the call history defines, which is what the
+    // C11 clauses tie the counter to: a C10 run therefore reports them too
+    want == prop || want == "ALL" || (want == "C17" && prop == "C17") || (want == "C10" && prop == "C11")
 }
 
 /// Execute one history against the real Lfo with all LFO monitors attached. Returns the first
@@ -150,6 +157,9 @@ fn wanted(want: &str, prop: &str) -> bool {
 pub fn execute(h: &History, want: &str, rep: &mut Report) -> Option<Violation> {
     let fs = h.fs;
     let mk = |prop: &str, clause: &str, msg: String, i: usize, ticks: Option<u64>| -> Violation {
+        let prop = if want == "C10" && prop == "C11" { "C10" } else { prop };
+        let clause_s = if want == "C10" && !clause.starts_with("phase-") && ["reset", "set_phase", "tick-advance", "tick-not-constant", "set_frequency-phase-jump", "new-not-zero", "set_phase-negative-mod1"].contains(&clause) { format!("phase-not-as-commanded-{}", clause) } else { clause.to_string() };
+        let clause = clause_s.as_str();
         Violation {
             clause: clause.to_string(),
             signature: format!("{}:{}", prop, clause),
@@ -227,8 +237,20 @@ pub fn execute(h: &History, want: &str, rep: &mut Report) -> Option<Violation> {
     if cur.k != 0 {
         fail!("C11", "new-not-zero", format!("fresh Lfo has counter {}", cur.k), 0, None);
     }
-    for (i, op) in h.ops.iter().enumerate() {
+    for (i, op0) in h.ops.iter().enumerate() {
+        // LandOn is resolved against the counter as read back now: a frequency change followed by one tick
+        let expanded: Vec<Op> = match op0 {
+            Op::LandOn(target) => {
+                let inc = (target & M24).wrapping_sub(cur.k) & M24;
+                let fq = (inc as f64 * fs as f64 / TWO24) as f32;
+                rep.count("lfo.land_on", 1);
+                vec![Op::SetFreq(fq), Op::Tick(1)]
+            }
+            other => vec![other.clone()],
+        };
+        for op in expanded.iter() {
         match op {
+            Op::LandOn(_) => {}
             Op::Reset => {
                 call!(lfo.reset(), i, None);
                 cur = obs!(i as u8, i, None);
@@ -380,6 +402,7 @@ pub fn execute(h: &History, want: &str, rep: &mut Report) -> Option<Violation> {
             }
         }
     }
+        }
     rep.evaluations += n_eval;
     rep.count("lfo.ticks", n_ticks);
     rep.count("lfo.cycle_wraps_crossed", n_wraps);
@@ -630,6 +653,53 @@ pub fn directed(ctx: &Ctx, want: &str) -> Report {
     rep
 }
 
+/// closed-loop landings: after reset / set_phase / some ticks the next tick is steered exactly onto chosen counter
+/// values (0, the cycle end, the half cycle, table-cell boundaries and their neighbours), then the run continues slowly
+pub fn landings(ctx: &Ctx, want: &str) -> Report {
+    let fss: &[f32] = if ctx.tier == Tier::Small { &[1024.0] } else { &[128.0, 1024.0, 4096.0, 65536.0, 131072.0] };
+    let n = ctx.budget(2, 400, 20_000) as usize;
+    par_shards(ctx, fss.len(), |j| {
+        let mut rep = Report::new();
+        let fs = fss[j];
+        let mut r = Rng::derive(ctx.seed, "lfo.landings", j as u64);
+        for h_i in 0..n {
+            let mut ops = vec![Op::SetFreq(fs / 1024.0)];
+            for _ in 0..(3 + r.below(6)) {
+                match r.below(5) {
+                    0 => ops.push(Op::Reset),
+                    1 | 2 => ops.push(Op::SetPhase(pick_phase(&mut r))),
+                    _ => ops.push(Op::Tick(1 + r.below(4))),
+                }
+                let cell = (r.below(1024) as u32) << 14;
+                let target = match r.below(9) {
+                    0 | 1 => 0,
+                    2 => M24,
+                    3 => 1 << 23,
+                    4 => (1 << 23) - 1,
+                    5 => cell,
+                    6 => cell.wrapping_sub(1) & M24,
+                    7 => (1023u32 << 14) + r.below(1 << 14) as u32,
+                    _ => r.below(1 << 24) as u32,
+                };
+                ops.push(Op::LandOn(target));
+                if r.chance(0.5) {
+                    ops.push(Op::Read(r.below(256) as u8));
+                }
+                // go on slowly (a fraction of a table cell per tick), then at a coarse step
+                ops.push(Op::SetFreq(fs * (1 + r.below(2000)) as f32 / 16_777_216.0));
+                ops.push(Op::Tick(2 + r.below(6)));
+                if r.chance(0.3) {
+                    ops.push(Op::SetFreq(fs / (1u32 << r.below(12)) as f32));
+                    ops.push(Op::Tick(1 + r.below(3)));
+                }
+            }
+            let h = History { fs, ops };
+            run_and_record(&h, want, &mut rep, j == 0 && h_i == 0);
+        }
+        rep
+    })
+}
+
 /// Stage D: seeded random histories
 pub fn random(ctx: &Ctx, want: &str) -> Report {
     let n_hist = ctx.budget(12, 60_000, 6_000_000);
@@ -661,6 +731,8 @@ pub fn run(ctx: &Ctx, prop: &str) -> Report {
     let t = std::time::Instant::now();
     stage("lfo.directed", directed(ctx, prop), &mut rep, t);
     let t = std::time::Instant::now();
+    stage("lfo.closed_loop_landings", landings(ctx, prop), &mut rep, t);
+    let t = std::time::Instant::now();
     stage("lfo.random", random(ctx, prop), &mut rep, t);
     if ctx.tier != Tier::Small {
         rep.floor("lfo.sweep.ticks", 1 << 24);
@@ -668,6 +740,7 @@ pub fn run(ctx: &Ctx, prop: &str) -> Report {
         rep.floor("lfo.set_phase.negative_twin", 100);
         rep.floor("lfo.set_phase.nonneg", 1000);
         rep.floor("lfo.read_pairs", 100);
+        rep.floor("lfo.land_on", 1000);
     }
     rep
 }
